@@ -1,12 +1,165 @@
+theories/Common/LE.vo theories/Common/LE.glob theories/Common/LE.v.beautified theories/Common/LE.required_vo: theories/Common/LE.v 
+theories/Common/LE.vio: theories/Common/LE.v 
+theories/Common/LE.vos theories/Common/LE.vok theories/Common/LE.required_vos: theories/Common/LE.v 
+theories/Conc/Pool.vo theories/Conc/Pool.glob theories/Conc/Pool.v.beautified theories/Conc/Pool.required_vo: theories/Conc/Pool.v 
+theories/Conc/Pool.vio: theories/Conc/Pool.v 
+theories/Conc/Pool.vos theories/Conc/Pool.vok theories/Conc/Pool.required_vos: theories/Conc/Pool.v 
+theories/Conc/RefCnt.vo theories/Conc/RefCnt.glob theories/Conc/RefCnt.v.beautified theories/Conc/RefCnt.required_vo: theories/Conc/RefCnt.v theories/Conc/Pool.vo
+theories/Conc/RefCnt.vio: theories/Conc/RefCnt.v theories/Conc/Pool.vio
+theories/Conc/RefCnt.vos theories/Conc/RefCnt.vok theories/Conc/RefCnt.required_vos: theories/Conc/RefCnt.v theories/Conc/Pool.vos
+theories/Conc/RefProofs.vo theories/Conc/RefProofs.glob theories/Conc/RefProofs.v.beautified theories/Conc/RefProofs.required_vo: theories/Conc/RefProofs.v theories/Conc/Pool.vo theories/Conc/RefCnt.vo
+theories/Conc/RefProofs.vio: theories/Conc/RefProofs.v theories/Conc/Pool.vio theories/Conc/RefCnt.vio
+theories/Conc/RefProofs.vos theories/Conc/RefProofs.vok theories/Conc/RefProofs.required_vos: theories/Conc/RefProofs.v theories/Conc/Pool.vos theories/Conc/RefCnt.vos
+theories/Conc/RwMutexModel.vo theories/Conc/RwMutexModel.glob theories/Conc/RwMutexModel.v.beautified theories/Conc/RwMutexModel.required_vo: theories/Conc/RwMutexModel.v 
+theories/Conc/RwMutexModel.vio: theories/Conc/RwMutexModel.v 
+theories/Conc/RwMutexModel.vos theories/Conc/RwMutexModel.vok theories/Conc/RwMutexModel.required_vos: theories/Conc/RwMutexModel.v 
+theories/Conc/RwMutexProofs.vo theories/Conc/RwMutexProofs.glob theories/Conc/RwMutexProofs.v.beautified theories/Conc/RwMutexProofs.required_vo: theories/Conc/RwMutexProofs.v theories/Conc/RwMutexModel.vo
+theories/Conc/RwMutexProofs.vio: theories/Conc/RwMutexProofs.v theories/Conc/RwMutexModel.vio
+theories/Conc/RwMutexProofs.vos theories/Conc/RwMutexProofs.vok theories/Conc/RwMutexProofs.required_vos: theories/Conc/RwMutexProofs.v theories/Conc/RwMutexModel.vos
+theories/Cont/HtIdeal.vo theories/Cont/HtIdeal.glob theories/Cont/HtIdeal.v.beautified theories/Cont/HtIdeal.required_vo: theories/Cont/HtIdeal.v theories/Cont/HtModel.vo
+theories/Cont/HtIdeal.vio: theories/Cont/HtIdeal.v theories/Cont/HtModel.vio
+theories/Cont/HtIdeal.vos theories/Cont/HtIdeal.vok theories/Cont/HtIdeal.required_vos: theories/Cont/HtIdeal.v theories/Cont/HtModel.vos
+theories/Cont/HtModel.vo theories/Cont/HtModel.glob theories/Cont/HtModel.v.beautified theories/Cont/HtModel.required_vo: theories/Cont/HtModel.v 
+theories/Cont/HtModel.vio: theories/Cont/HtModel.v 
+theories/Cont/HtModel.vos theories/Cont/HtModel.vok theories/Cont/HtModel.required_vos: theories/Cont/HtModel.v 
+theories/Cont/HtProofs.vo theories/Cont/HtProofs.glob theories/Cont/HtProofs.v.beautified theories/Cont/HtProofs.required_vo: theories/Cont/HtProofs.v theories/Cont/HtModel.vo theories/Cont/HtStep.vo theories/Cont/HtIdeal.vo
+theories/Cont/HtProofs.vio: theories/Cont/HtProofs.v theories/Cont/HtModel.vio theories/Cont/HtStep.vio theories/Cont/HtIdeal.vio
+theories/Cont/HtProofs.vos theories/Cont/HtProofs.vok theories/Cont/HtProofs.required_vos: theories/Cont/HtProofs.v theories/Cont/HtModel.vos theories/Cont/HtStep.vos theories/Cont/HtIdeal.vos
+theories/Cont/HtStep.vo theories/Cont/HtStep.glob theories/Cont/HtStep.v.beautified theories/Cont/HtStep.required_vo: theories/Cont/HtStep.v theories/Cont/HtModel.vo
+theories/Cont/HtStep.vio: theories/Cont/HtStep.v theories/Cont/HtModel.vio
+theories/Cont/HtStep.vos theories/Cont/HtStep.vok theories/Cont/HtStep.required_vos: theories/Cont/HtStep.v theories/Cont/HtModel.vos
+theories/Cont/QueueEnsure.vo theories/Cont/QueueEnsure.glob theories/Cont/QueueEnsure.v.beautified theories/Cont/QueueEnsure.required_vo: theories/Cont/QueueEnsure.v theories/Cont/QueueModel.vo theories/Cont/QueueLemmas.vo theories/Cont/QueueInv.vo theories/Cont/QueueOps1.vo
+theories/Cont/QueueEnsure.vio: theories/Cont/QueueEnsure.v theories/Cont/QueueModel.vio theories/Cont/QueueLemmas.vio theories/Cont/QueueInv.vio theories/Cont/QueueOps1.vio
+theories/Cont/QueueEnsure.vos theories/Cont/QueueEnsure.vok theories/Cont/QueueEnsure.required_vos: theories/Cont/QueueEnsure.v theories/Cont/QueueModel.vos theories/Cont/QueueLemmas.vos theories/Cont/QueueInv.vos theories/Cont/QueueOps1.vos
+theories/Cont/QueueInv.vo theories/Cont/QueueInv.glob theories/Cont/QueueInv.v.beautified theories/Cont/QueueInv.required_vo: theories/Cont/QueueInv.v theories/Cont/QueueModel.vo theories/Cont/QueueLemmas.vo
+theories/Cont/QueueInv.vio: theories/Cont/QueueInv.v theories/Cont/QueueModel.vio theories/Cont/QueueLemmas.vio
+theories/Cont/QueueInv.vos theories/Cont/QueueInv.vok theories/Cont/QueueInv.required_vos: theories/Cont/QueueInv.v theories/Cont/QueueModel.vos theories/Cont/QueueLemmas.vos
+theories/Cont/QueueLemmas.vo theories/Cont/QueueLemmas.glob theories/Cont/QueueLemmas.v.beautified theories/Cont/QueueLemmas.required_vo: theories/Cont/QueueLemmas.v theories/Cont/QueueModel.vo
+theories/Cont/QueueLemmas.vio: theories/Cont/QueueLemmas.v theories/Cont/QueueModel.vio
+theories/Cont/QueueLemmas.vos theories/Cont/QueueLemmas.vok theories/Cont/QueueLemmas.required_vos: theories/Cont/QueueLemmas.v theories/Cont/QueueModel.vos
 theories/Cont/QueueModel.vo theories/Cont/QueueModel.glob theories/Cont/QueueModel.v.beautified theories/Cont/QueueModel.required_vo: theories/Cont/QueueModel.v 
 theories/Cont/QueueModel.vio: theories/Cont/QueueModel.v 
 theories/Cont/QueueModel.vos theories/Cont/QueueModel.vok theories/Cont/QueueModel.required_vos: theories/Cont/QueueModel.v 
+theories/Cont/QueueOps1.vo theories/Cont/QueueOps1.glob theories/Cont/QueueOps1.v.beautified theories/Cont/QueueOps1.required_vo: theories/Cont/QueueOps1.v theories/Cont/QueueModel.vo theories/Cont/QueueLemmas.vo theories/Cont/QueueInv.vo
+theories/Cont/QueueOps1.vio: theories/Cont/QueueOps1.v theories/Cont/QueueModel.vio theories/Cont/QueueLemmas.vio theories/Cont/QueueInv.vio
+theories/Cont/QueueOps1.vos theories/Cont/QueueOps1.vok theories/Cont/QueueOps1.required_vos: theories/Cont/QueueOps1.v theories/Cont/QueueModel.vos theories/Cont/QueueLemmas.vos theories/Cont/QueueInv.vos
+theories/Cont/QueueOps2.vo theories/Cont/QueueOps2.glob theories/Cont/QueueOps2.v.beautified theories/Cont/QueueOps2.required_vo: theories/Cont/QueueOps2.v theories/Cont/QueueModel.vo theories/Cont/QueueLemmas.vo theories/Cont/QueueInv.vo theories/Cont/QueueOps1.vo theories/Cont/QueueEnsure.vo
+theories/Cont/QueueOps2.vio: theories/Cont/QueueOps2.v theories/Cont/QueueModel.vio theories/Cont/QueueLemmas.vio theories/Cont/QueueInv.vio theories/Cont/QueueOps1.vio theories/Cont/QueueEnsure.vio
+theories/Cont/QueueOps2.vos theories/Cont/QueueOps2.vok theories/Cont/QueueOps2.required_vos: theories/Cont/QueueOps2.v theories/Cont/QueueModel.vos theories/Cont/QueueLemmas.vos theories/Cont/QueueInv.vos theories/Cont/QueueOps1.vos theories/Cont/QueueEnsure.vos
 theories/Cont/QueueProofs.vo theories/Cont/QueueProofs.glob theories/Cont/QueueProofs.v.beautified theories/Cont/QueueProofs.required_vo: theories/Cont/QueueProofs.v theories/Cont/QueueModel.vo
 theories/Cont/QueueProofs.vio: theories/Cont/QueueProofs.v theories/Cont/QueueModel.vio
 theories/Cont/QueueProofs.vos theories/Cont/QueueProofs.vok theories/Cont/QueueProofs.required_vos: theories/Cont/QueueProofs.v theories/Cont/QueueModel.vos
+theories/Cont/StrL0.vo theories/Cont/StrL0.glob theories/Cont/StrL0.v.beautified theories/Cont/StrL0.required_vo: theories/Cont/StrL0.v 
+theories/Cont/StrL0.vio: theories/Cont/StrL0.v 
+theories/Cont/StrL0.vos theories/Cont/StrL0.vok theories/Cont/StrL0.required_vos: theories/Cont/StrL0.v 
+theories/Cont/StrModel.vo theories/Cont/StrModel.glob theories/Cont/StrModel.v.beautified theories/Cont/StrModel.required_vo: theories/Cont/StrModel.v theories/Cont/StrL0.vo
+theories/Cont/StrModel.vio: theories/Cont/StrModel.v theories/Cont/StrL0.vio
+theories/Cont/StrModel.vos theories/Cont/StrModel.vok theories/Cont/StrModel.required_vos: theories/Cont/StrModel.v theories/Cont/StrL0.vos
+theories/Cont/StrProofs.vo theories/Cont/StrProofs.glob theories/Cont/StrProofs.v.beautified theories/Cont/StrProofs.required_vo: theories/Cont/StrProofs.v theories/Gen/Consts.vo theories/Cont/StrL0.vo theories/Cont/StrModel.vo
+theories/Cont/StrProofs.vio: theories/Cont/StrProofs.v theories/Gen/Consts.vio theories/Cont/StrL0.vio theories/Cont/StrModel.vio
+theories/Cont/StrProofs.vos theories/Cont/StrProofs.vok theories/Cont/StrProofs.required_vos: theories/Cont/StrProofs.v theories/Gen/Consts.vos theories/Cont/StrL0.vos theories/Cont/StrModel.vos
 theories/Gen/Consts.vo theories/Gen/Consts.glob theories/Gen/Consts.v.beautified theories/Gen/Consts.required_vo: theories/Gen/Consts.v 
 theories/Gen/Consts.vio: theories/Gen/Consts.v 
 theories/Gen/Consts.vos theories/Gen/Consts.vok theories/Gen/Consts.required_vos: theories/Gen/Consts.v 
+theories/Gw/FrameModel.vo theories/Gw/FrameModel.glob theories/Gw/FrameModel.v.beautified theories/Gw/FrameModel.required_vo: theories/Gw/FrameModel.v theories/Gen/Consts.vo theories/Gw/GwBase.vo
+theories/Gw/FrameModel.vio: theories/Gw/FrameModel.v theories/Gen/Consts.vio theories/Gw/GwBase.vio
+theories/Gw/FrameModel.vos theories/Gw/FrameModel.vok theories/Gw/FrameModel.required_vos: theories/Gw/FrameModel.v theories/Gen/Consts.vos theories/Gw/GwBase.vos
+theories/Gw/FrameProofs.vo theories/Gw/FrameProofs.glob theories/Gw/FrameProofs.v.beautified theories/Gw/FrameProofs.required_vo: theories/Gw/FrameProofs.v theories/Gen/Consts.vo theories/Gw/GwBase.vo theories/Gw/FrameModel.vo
+theories/Gw/FrameProofs.vio: theories/Gw/FrameProofs.v theories/Gen/Consts.vio theories/Gw/GwBase.vio theories/Gw/FrameModel.vio
+theories/Gw/FrameProofs.vos theories/Gw/FrameProofs.vok theories/Gw/FrameProofs.required_vos: theories/Gw/FrameProofs.v theories/Gen/Consts.vos theories/Gw/GwBase.vos theories/Gw/FrameModel.vos
+theories/Gw/GwBase.vo theories/Gw/GwBase.glob theories/Gw/GwBase.v.beautified theories/Gw/GwBase.required_vo: theories/Gw/GwBase.v 
+theories/Gw/GwBase.vio: theories/Gw/GwBase.v 
+theories/Gw/GwBase.vos theories/Gw/GwBase.vok theories/Gw/GwBase.required_vos: theories/Gw/GwBase.v 
+theories/Gw/MiniTunnel.vo theories/Gw/MiniTunnel.glob theories/Gw/MiniTunnel.v.beautified theories/Gw/MiniTunnel.required_vo: theories/Gw/MiniTunnel.v theories/Common/LE.vo theories/Gen/Consts.vo theories/Gw/Tunnel.vo
+theories/Gw/MiniTunnel.vio: theories/Gw/MiniTunnel.v theories/Common/LE.vio theories/Gen/Consts.vio theories/Gw/Tunnel.vio
+theories/Gw/MiniTunnel.vos theories/Gw/MiniTunnel.vok theories/Gw/MiniTunnel.required_vos: theories/Gw/MiniTunnel.v theories/Common/LE.vos theories/Gen/Consts.vos theories/Gw/Tunnel.vos
+theories/Gw/RawModel.vo theories/Gw/RawModel.glob theories/Gw/RawModel.v.beautified theories/Gw/RawModel.required_vo: theories/Gw/RawModel.v theories/Gen/Consts.vo theories/Gw/GwBase.vo
+theories/Gw/RawModel.vio: theories/Gw/RawModel.v theories/Gen/Consts.vio theories/Gw/GwBase.vio
+theories/Gw/RawModel.vos theories/Gw/RawModel.vok theories/Gw/RawModel.required_vos: theories/Gw/RawModel.v theories/Gen/Consts.vos theories/Gw/GwBase.vos
+theories/Gw/SlipModel.vo theories/Gw/SlipModel.glob theories/Gw/SlipModel.v.beautified theories/Gw/SlipModel.required_vo: theories/Gw/SlipModel.v theories/Gen/Consts.vo theories/Gw/GwBase.vo theories/Gw/RawModel.vo
+theories/Gw/SlipModel.vio: theories/Gw/SlipModel.v theories/Gen/Consts.vio theories/Gw/GwBase.vio theories/Gw/RawModel.vio
+theories/Gw/SlipModel.vos theories/Gw/SlipModel.vok theories/Gw/SlipModel.required_vos: theories/Gw/SlipModel.v theories/Gen/Consts.vos theories/Gw/GwBase.vos theories/Gw/RawModel.vos
+theories/Gw/TextModel.vo theories/Gw/TextModel.glob theories/Gw/TextModel.v.beautified theories/Gw/TextModel.required_vo: theories/Gw/TextModel.v theories/Gen/Consts.vo theories/Gw/GwBase.vo
+theories/Gw/TextModel.vio: theories/Gw/TextModel.v theories/Gen/Consts.vio theories/Gw/GwBase.vio
+theories/Gw/TextModel.vos theories/Gw/TextModel.vok theories/Gw/TextModel.required_vos: theories/Gw/TextModel.v theories/Gen/Consts.vos theories/Gw/GwBase.vos
+theories/Gw/Tunnel.vo theories/Gw/Tunnel.glob theories/Gw/Tunnel.v.beautified theories/Gw/Tunnel.required_vo: theories/Gw/Tunnel.v theories/Common/LE.vo theories/Gen/Consts.vo
+theories/Gw/Tunnel.vio: theories/Gw/Tunnel.v theories/Common/LE.vio theories/Gen/Consts.vio
+theories/Gw/Tunnel.vos theories/Gw/Tunnel.vok theories/Gw/Tunnel.required_vos: theories/Gw/Tunnel.v theories/Common/LE.vos theories/Gen/Consts.vos
+theories/Gw/TunnelProofs.vo theories/Gw/TunnelProofs.glob theories/Gw/TunnelProofs.v.beautified theories/Gw/TunnelProofs.required_vo: theories/Gw/TunnelProofs.v theories/Common/LE.vo theories/Gen/Consts.vo theories/Gw/Tunnel.vo
+theories/Gw/TunnelProofs.vio: theories/Gw/TunnelProofs.v theories/Common/LE.vio theories/Gen/Consts.vio theories/Gw/Tunnel.vio
+theories/Gw/TunnelProofs.vos theories/Gw/TunnelProofs.vok theories/Gw/TunnelProofs.required_vos: theories/Gw/TunnelProofs.v theories/Common/LE.vos theories/Gen/Consts.vos theories/Gw/Tunnel.vos
+theories/Msg/MsgApi.vo theories/Msg/MsgApi.glob theories/Msg/MsgApi.v.beautified theories/Msg/MsgApi.required_vo: theories/Msg/MsgApi.v theories/Gen/Consts.vo theories/Msg/MsgDefs.vo theories/Msg/MsgModel.vo
+theories/Msg/MsgApi.vio: theories/Msg/MsgApi.v theories/Gen/Consts.vio theories/Msg/MsgDefs.vio theories/Msg/MsgModel.vio
+theories/Msg/MsgApi.vos theories/Msg/MsgApi.vok theories/Msg/MsgApi.required_vos: theories/Msg/MsgApi.v theories/Gen/Consts.vos theories/Msg/MsgDefs.vos theories/Msg/MsgModel.vos
+theories/Msg/MsgDefs.vo theories/Msg/MsgDefs.glob theories/Msg/MsgDefs.v.beautified theories/Msg/MsgDefs.required_vo: theories/Msg/MsgDefs.v theories/Gen/Consts.vo
+theories/Msg/MsgDefs.vio: theories/Msg/MsgDefs.v theories/Gen/Consts.vio
+theories/Msg/MsgDefs.vos theories/Msg/MsgDefs.vok theories/Msg/MsgDefs.required_vos: theories/Msg/MsgDefs.v theories/Gen/Consts.vos
+theories/Msg/MsgModel.vo theories/Msg/MsgModel.glob theories/Msg/MsgModel.v.beautified theories/Msg/MsgModel.required_vo: theories/Msg/MsgModel.v theories/Gen/Consts.vo theories/Msg/MsgDefs.vo
+theories/Msg/MsgModel.vio: theories/Msg/MsgModel.v theories/Gen/Consts.vio theories/Msg/MsgDefs.vio
+theories/Msg/MsgModel.vos theories/Msg/MsgModel.vok theories/Msg/MsgModel.required_vos: theories/Msg/MsgModel.v theories/Gen/Consts.vos theories/Msg/MsgDefs.vos
+theories/Msg/MsgProofs.vo theories/Msg/MsgProofs.glob theories/Msg/MsgProofs.v.beautified theories/Msg/MsgProofs.required_vo: theories/Msg/MsgProofs.v theories/Gen/Consts.vo theories/Msg/MsgDefs.vo theories/Msg/MsgModel.vo theories/Msg/MsgApi.vo
+theories/Msg/MsgProofs.vio: theories/Msg/MsgProofs.v theories/Gen/Consts.vio theories/Msg/MsgDefs.vio theories/Msg/MsgModel.vio theories/Msg/MsgApi.vio
+theories/Msg/MsgProofs.vos theories/Msg/MsgProofs.vok theories/Msg/MsgProofs.required_vos: theories/Msg/MsgProofs.v theories/Gen/Consts.vos theories/Msg/MsgDefs.vos theories/Msg/MsgModel.vos theories/Msg/MsgApi.vos
+theories/Pat/Ere.vo theories/Pat/Ere.glob theories/Pat/Ere.v.beautified theories/Pat/Ere.required_vo: theories/Pat/Ere.v 
+theories/Pat/Ere.vio: theories/Pat/Ere.v 
+theories/Pat/Ere.vos theories/Pat/Ere.vok theories/Pat/Ere.required_vos: theories/Pat/Ere.v 
+theories/Pat/PatProofs.vo theories/Pat/PatProofs.glob theories/Pat/PatProofs.v.beautified theories/Pat/PatProofs.required_vo: theories/Pat/PatProofs.v theories/Gen/Consts.vo theories/Pat/Ere.vo theories/Pat/Translate.vo
+theories/Pat/PatProofs.vio: theories/Pat/PatProofs.v theories/Gen/Consts.vio theories/Pat/Ere.vio theories/Pat/Translate.vio
+theories/Pat/PatProofs.vos theories/Pat/PatProofs.vok theories/Pat/PatProofs.required_vos: theories/Pat/PatProofs.v theories/Gen/Consts.vos theories/Pat/Ere.vos theories/Pat/Translate.vos
+theories/Pat/Translate.vo theories/Pat/Translate.glob theories/Pat/Translate.v.beautified theories/Pat/Translate.required_vo: theories/Pat/Translate.v theories/Gen/Consts.vo theories/Pat/Ere.vo
+theories/Pat/Translate.vio: theories/Pat/Translate.v theories/Gen/Consts.vio theories/Pat/Ere.vio
+theories/Pat/Translate.vos theories/Pat/Translate.vok theories/Pat/Translate.required_vos: theories/Pat/Translate.v theories/Gen/Consts.vos theories/Pat/Ere.vos
+theories/Properties_C01.vo theories/Properties_C01.glob theories/Properties_C01.v.beautified theories/Properties_C01.required_vo: theories/Properties_C01.v theories/Msg/MsgDefs.vo theories/Msg/MsgModel.vo theories/Msg/MsgApi.vo theories/Msg/MsgProofs.vo
+theories/Properties_C01.vio: theories/Properties_C01.v theories/Msg/MsgDefs.vio theories/Msg/MsgModel.vio theories/Msg/MsgApi.vio theories/Msg/MsgProofs.vio
+theories/Properties_C01.vos theories/Properties_C01.vok theories/Properties_C01.required_vos: theories/Properties_C01.v theories/Msg/MsgDefs.vos theories/Msg/MsgModel.vos theories/Msg/MsgApi.vos theories/Msg/MsgProofs.vos
+theories/Properties_C03.vo theories/Properties_C03.glob theories/Properties_C03.v.beautified theories/Properties_C03.required_vo: theories/Properties_C03.v theories/Gw/GwBase.vo theories/Gw/FrameModel.vo theories/Gw/FrameProofs.vo
+theories/Properties_C03.vio: theories/Properties_C03.v theories/Gw/GwBase.vio theories/Gw/FrameModel.vio theories/Gw/FrameProofs.vio
+theories/Properties_C03.vos theories/Properties_C03.vok theories/Properties_C03.required_vos: theories/Properties_C03.v theories/Gw/GwBase.vos theories/Gw/FrameModel.vos theories/Gw/FrameProofs.vos
+theories/Properties_C09.vo theories/Properties_C09.glob theories/Properties_C09.v.beautified theories/Properties_C09.required_vo: theories/Properties_C09.v theories/Cont/HtModel.vo theories/Cont/HtStep.vo theories/Cont/HtIdeal.vo theories/Cont/HtProofs.vo
+theories/Properties_C09.vio: theories/Properties_C09.v theories/Cont/HtModel.vio theories/Cont/HtStep.vio theories/Cont/HtIdeal.vio theories/Cont/HtProofs.vio
+theories/Properties_C09.vos theories/Properties_C09.vok theories/Properties_C09.required_vos: theories/Properties_C09.v theories/Cont/HtModel.vos theories/Cont/HtStep.vos theories/Cont/HtIdeal.vos theories/Cont/HtProofs.vos
+theories/Properties_C10.vo theories/Properties_C10.glob theories/Properties_C10.v.beautified theories/Properties_C10.required_vo: theories/Properties_C10.v theories/Conc/Pool.vo theories/Conc/RefCnt.vo theories/Conc/RefProofs.vo
+theories/Properties_C10.vio: theories/Properties_C10.v theories/Conc/Pool.vio theories/Conc/RefCnt.vio theories/Conc/RefProofs.vio
+theories/Properties_C10.vos theories/Properties_C10.vok theories/Properties_C10.required_vos: theories/Properties_C10.v theories/Conc/Pool.vos theories/Conc/RefCnt.vos theories/Conc/RefProofs.vos
+theories/Properties_C12.vo theories/Properties_C12.glob theories/Properties_C12.v.beautified theories/Properties_C12.required_vo: theories/Properties_C12.v theories/Common/LE.vo theories/Gw/Tunnel.vo theories/Gw/TunnelProofs.vo
+theories/Properties_C12.vio: theories/Properties_C12.v theories/Common/LE.vio theories/Gw/Tunnel.vio theories/Gw/TunnelProofs.vio
+theories/Properties_C12.vos theories/Properties_C12.vok theories/Properties_C12.required_vos: theories/Properties_C12.v theories/Common/LE.vos theories/Gw/Tunnel.vos theories/Gw/TunnelProofs.vos
+theories/Properties_C13.vo theories/Properties_C13.glob theories/Properties_C13.v.beautified theories/Properties_C13.required_vo: theories/Properties_C13.v theories/Refl/Index.vo theories/Refl/IndexProofs.vo
+theories/Properties_C13.vio: theories/Properties_C13.v theories/Refl/Index.vio theories/Refl/IndexProofs.vio
+theories/Properties_C13.vos theories/Properties_C13.vok theories/Properties_C13.required_vos: theories/Properties_C13.v theories/Refl/Index.vos theories/Refl/IndexProofs.vos
 theories/Properties_C16.vo theories/Properties_C16.glob theories/Properties_C16.v.beautified theories/Properties_C16.required_vo: theories/Properties_C16.v theories/Cont/QueueModel.vo theories/Cont/QueueProofs.vo
 theories/Properties_C16.vio: theories/Properties_C16.v theories/Cont/QueueModel.vio theories/Cont/QueueProofs.vio
 theories/Properties_C16.vos theories/Properties_C16.vok theories/Properties_C16.required_vos: theories/Properties_C16.v theories/Cont/QueueModel.vos theories/Cont/QueueProofs.vos
+theories/Properties_C17.vo theories/Properties_C17.glob theories/Properties_C17.v.beautified theories/Properties_C17.required_vo: theories/Properties_C17.v theories/Gen/Consts.vo theories/Cont/StrL0.vo theories/Cont/StrModel.vo theories/Cont/StrProofs.vo
+theories/Properties_C17.vio: theories/Properties_C17.v theories/Gen/Consts.vio theories/Cont/StrL0.vio theories/Cont/StrModel.vio theories/Cont/StrProofs.vio
+theories/Properties_C17.vos theories/Properties_C17.vok theories/Properties_C17.required_vos: theories/Properties_C17.v theories/Gen/Consts.vos theories/Cont/StrL0.vos theories/Cont/StrModel.vos theories/Cont/StrProofs.vos
+theories/Properties_C18.vo theories/Properties_C18.glob theories/Properties_C18.v.beautified theories/Properties_C18.required_vo: theories/Properties_C18.v theories/Conc/RwMutexModel.vo theories/Conc/RwMutexProofs.vo
+theories/Properties_C18.vio: theories/Properties_C18.v theories/Conc/RwMutexModel.vio theories/Conc/RwMutexProofs.vio
+theories/Properties_C18.vos theories/Properties_C18.vok theories/Properties_C18.required_vos: theories/Properties_C18.v theories/Conc/RwMutexModel.vos theories/Conc/RwMutexProofs.vos
+theories/Properties_C20.vo theories/Properties_C20.glob theories/Properties_C20.v.beautified theories/Properties_C20.required_vo: theories/Properties_C20.v theories/Pulse/PulseModel.vo theories/Pulse/PulseProofs.vo
+theories/Properties_C20.vio: theories/Properties_C20.v theories/Pulse/PulseModel.vio theories/Pulse/PulseProofs.vio
+theories/Properties_C20.vos theories/Properties_C20.vok theories/Properties_C20.required_vos: theories/Properties_C20.v theories/Pulse/PulseModel.vos theories/Pulse/PulseProofs.vos
+theories/Pulse/PulseModel.vo theories/Pulse/PulseModel.glob theories/Pulse/PulseModel.v.beautified theories/Pulse/PulseModel.required_vo: theories/Pulse/PulseModel.v theories/Gen/Consts.vo
+theories/Pulse/PulseModel.vio: theories/Pulse/PulseModel.v theories/Gen/Consts.vio
+theories/Pulse/PulseModel.vos theories/Pulse/PulseModel.vok theories/Pulse/PulseModel.required_vos: theories/Pulse/PulseModel.v theories/Gen/Consts.vos
+theories/Pulse/PulseProofs.vo theories/Pulse/PulseProofs.glob theories/Pulse/PulseProofs.v.beautified theories/Pulse/PulseProofs.required_vo: theories/Pulse/PulseProofs.v theories/Pulse/PulseModel.vo
+theories/Pulse/PulseProofs.vio: theories/Pulse/PulseProofs.v theories/Pulse/PulseModel.vio
+theories/Pulse/PulseProofs.vos theories/Pulse/PulseProofs.vok theories/Pulse/PulseProofs.required_vos: theories/Pulse/PulseProofs.v theories/Pulse/PulseModel.vos
+theories/Refl/Base.vo theories/Refl/Base.glob theories/Refl/Base.v.beautified theories/Refl/Base.required_vo: theories/Refl/Base.v 
+theories/Refl/Base.vio: theories/Refl/Base.v 
+theories/Refl/Base.vos theories/Refl/Base.vok theories/Refl/Base.required_vos: theories/Refl/Base.v 
+theories/Refl/Index.vo theories/Refl/Index.glob theories/Refl/Index.v.beautified theories/Refl/Index.required_vo: theories/Refl/Index.v 
+theories/Refl/Index.vio: theories/Refl/Index.v 
+theories/Refl/Index.vos theories/Refl/Index.vok theories/Refl/Index.required_vos: theories/Refl/Index.v 
+theories/Refl/IndexModel.vo theories/Refl/IndexModel.glob theories/Refl/IndexModel.v.beautified theories/Refl/IndexModel.required_vo: theories/Refl/IndexModel.v theories/Refl/Index.vo
+theories/Refl/IndexModel.vio: theories/Refl/IndexModel.v theories/Refl/Index.vio
+theories/Refl/IndexModel.vos theories/Refl/IndexModel.vok theories/Refl/IndexModel.required_vos: theories/Refl/IndexModel.v theories/Refl/Index.vos
+theories/Refl/IndexProofs.vo theories/Refl/IndexProofs.glob theories/Refl/IndexProofs.v.beautified theories/Refl/IndexProofs.required_vo: theories/Refl/IndexProofs.v theories/Refl/Index.vo
+theories/Refl/IndexProofs.vio: theories/Refl/IndexProofs.v theories/Refl/Index.vio
+theories/Refl/IndexProofs.vos theories/Refl/IndexProofs.vok theories/Refl/IndexProofs.required_vos: theories/Refl/IndexProofs.v theories/Refl/Index.vos
+theories/Refl/Matcher.vo theories/Refl/Matcher.glob theories/Refl/Matcher.v.beautified theories/Refl/Matcher.required_vo: theories/Refl/Matcher.v theories/Refl/Base.vo theories/Refl/Tree.vo
+theories/Refl/Matcher.vio: theories/Refl/Matcher.v theories/Refl/Base.vio theories/Refl/Tree.vio
+theories/Refl/Matcher.vos theories/Refl/Matcher.vok theories/Refl/Matcher.required_vos: theories/Refl/Matcher.v theories/Refl/Base.vos theories/Refl/Tree.vos
+theories/Refl/Tree.vo theories/Refl/Tree.glob theories/Refl/Tree.v.beautified theories/Refl/Tree.required_vo: theories/Refl/Tree.v theories/Refl/Base.vo
+theories/Refl/Tree.vio: theories/Refl/Tree.v theories/Refl/Base.vio
+theories/Refl/Tree.vos theories/Refl/Tree.vok theories/Refl/Tree.required_vos: theories/Refl/Tree.v theories/Refl/Base.vos
